@@ -835,3 +835,38 @@ Proof.
   rewrite Forall_forall in F. destruct (F s H) as [_ [_ [Hs He]]].
   split; [apply rem_cs_le_grant; exact Hs|exact He].
 Qed.
+(* entries leave the table only through housekeeping or shutdown *)
+Lemma step_keeps_entries : forall c st o s,
+  NoDup (map s_id (st_table st)) -> In s (st_table st) ->
+  match o with
+  | Housekeeping | Stop _ _ => True
+  | _ => exists s', In s' (st_table (fst (step c st o))) /\ same_static s s'
+  end.
+Proof.
+  intros c st o s ND Hs.
+  assert (forall x, In x (st_table st) -> s_id x = s_id s -> x = s) as U.
+  { intros x Hx E. pose proof (tfind_NoDup _ _ ND Hx) as F1. pose proof (tfind_NoDup _ _ ND Hs) as F2.
+    rewrite E in F1. congruence. }
+  destruct o as [q|i e|i|i|dt|a outs| |se outs]; simpl; auto.
+  - destruct (accepts c q); simpl; exists s; (split; [|apply same_static_refl]);
+      [apply in_app_iff; now left|exact Hs].
+  - destruct (lookup st i) as [s0|] eqn:L; simpl; [|exists s; split; [exact Hs|apply same_static_refl]].
+    destruct (lookup_Some _ _ _ L) as [k [_ [Hs0 _]]].
+    destruct (Z.eq_dec (s_id s) (s_id s0)) as [E|N].
+    + exists (set_grant s0 (st_now st) (grant c e)). split.
+      * apply tset_In_new. exists s0. split; [exact Hs0|reflexivity].
+      * rewrite (U s0 Hs0 (eq_sym E)). repeat split.
+    + exists s. split; [apply tset_In_other; [exact Hs|exact N]|apply same_static_refl].
+  - destruct (lookup st i); simpl; exists s; (split; [exact Hs|apply same_static_refl]).
+  - destruct (lookup st i) as [s0|] eqn:L; simpl; [|exists s; split; [exact Hs|apply same_static_refl]].
+    destruct (lookup_Some _ _ _ L) as [k [_ [Hs0 _]]].
+    destruct (Z.eq_dec (s_id s) (s_id s0)) as [E|N].
+    + exists (set_unsub s0 (st_now st)). split.
+      * apply tset_In_new. exists s0. split; [exact Hs0|reflexivity].
+      * rewrite (U s0 Hs0 (eq_sym E)). repeat split.
+    + exists s. split; [apply tset_In_other; [exact Hs|exact N]|apply same_static_refl].
+  - exists s. split; [exact Hs|apply same_static_refl].
+  - pose proof (send_all_table c (st_now st) a outs (st_table st) (st_pool st)) as T.
+    destruct (send_all c (st_now st) a outs (st_table st) (st_pool st)) as [[t' p'] ms]. simpl in *.
+    destruct (Forall2_In_l _ _ _ _ T Hs) as [y [Hy [S _]]]. exists y. auto.
+Qed.
